@@ -96,9 +96,9 @@ def followUpdateFollowers (actorIRI : Iri) (recipients : List Iri) : Prog Unit :
     let followers ← Op.followers actorIRI
     Op.update (setList followers "items" (mkIdList recipients.reverse ++ (rawList followers "items").getD [])))
 
-/-- builds, identifies and delivers the automatic Accept/Reject.  The response embeds the very same Follow
-value, and delivery preparation strips bto/bcc from a response's embedded objects *in place*: the Follow as it
-is afterwards is returned. -/
+/-- builds, identifies and delivers the automatic Accept/Reject.  The response embeds a *copy* of the Follow
+(delivery preparation strips bto/bcc from a response's embedded objects in place): the received Follow is returned
+as it came. -/
 def followRespond (F : TFacts) (cfg : CbConfig) (box : Iri) (a : J) (actorIRI : Iri)
     (addNewIds : J → Prog J) (deliver : Iri → J → Prog J) : Prog J := do
   let ty ← followResponseType cfg
@@ -108,10 +108,8 @@ def followRespond (F : TFacts) (cfg : CbConfig) (box : Iri) (a : J) (actorIRI : 
   (if cfg.onFollow == 1 then followUpdateFollowers actorIRI recipients else pure ())
   let outboxIRI ← Op.locked box (Op.outboxForInbox box)
   let response ← addNewIds (followResponse ty actorIRI a recipients)
-  let delivered ← deliver outboxIRI response
-  pure (match rawList delivered "object" with
-    | some [x] => x
-    | _ => a)
+  let _ ← deliver outboxIRI response
+  pure a
 
 def fedFollow (F : TFacts) (cfg : CbConfig) (box : Iri) (a : J)
     (addNewIds : J → Prog J) (deliver : Iri → J → Prog J) : Prog J := do
